@@ -90,6 +90,23 @@ int main(void) {
                 printf("B "); hx_print_buf(pdu, len); putchar('\n');
             }
             free(base);
+        } else if (!strcmp(c, "L") && argc == 6) {
+            /* L name pdu a b res : res = "-" null result pointer, "x" no result parameter, else old value (hex) */
+            const hx_lentry* e = 0;
+            for (int u = 0; hx_lall[u] && !e; u++)
+                for (const hx_lentry* q = hx_lall[u]; q->name; q++)
+                    if (strcmp(q->name, argv[1]) == 0) { e = q; break; }
+            if (!e) { puts("NOSUCH"); continue; }
+            size_t len = 0; uint8_t* base = 0; uint8_t* pdu = 0;
+            int isnull = !strcmp(argv[2], "-");
+            if (!isnull) pdu = hx_alloc_exact(argv[2], &len, g_offset, &base);
+            int hasres = strcmp(argv[5], "-") && strcmp(argv[5], "x");
+            uint64_t r = hasres ? ux(argv[5]) : 0;
+            int64_t rc = e->fn(pdu, ux(argv[3]), ux(argv[4]), hasres ? &r : 0);
+            if (rc == 0) printf("R 0 "); else if (rc == -22) printf("R E "); else printf("R %lld ", (long long)rc);
+            if (isnull) putchar('-'); else hx_print_buf(pdu, len);
+            if (hasres) printf(" %llx\n", (unsigned long long)r); else printf(" %s\n", argv[5]);
+            free(base);
         } else if (!strcmp(c, "H") && argc == 5) {
             printf("V %llx\n", (unsigned long long)helper(argv[2], argv[3], ux(argv[4])));
         } else if (hx_ext(argc, argv)) {
